@@ -71,7 +71,7 @@ func runC04(c *Ctx) {
 		"(ageing) purge selects for deletion under !Online && LastSeen.Before(now-PurgeDeadline), for offline under Online && LastSeen.Before(now-OfflineDeadline), deletes through deleteHost; deleteHost removes the MAC entry only when its host list became empty; " +
 		"(who) hosts are created only in findOrCreateHostWithLock (callers: Parse, DHCPv4Update) and removed only in deleteHost (callers: purge, findOrCreateHostWithLock). Not decided: equality with a reference model over histories, timing."
 	r.Rule("create", "host creation sites carry the discovery conditions of their family", 11)
-	r.Rule("online", "online transition and sibling-offline conditions", 19)
+	r.Rule("online", "online transition and sibling-offline conditions", 20)
 	r.Rule("ageing", "purge selections and deletion conditions", 5)
 	r.Rule("who", "who may create and delete hosts", 7)
 
@@ -156,6 +156,25 @@ func runC04(c *Ctx) {
 		}
 		r.Add(core.Obligation{Rule: "online", Key: fmt.Sprintf("online Parse transition site %d marks the frame", k+1), Func: core.FuncName(parse), Pos: c.P.Pos(core.PosOf(ins)), Status: st,
 			Basis: "frame.flags = markOnlineTransition() follows on every path", Detail: "the frame is not marked as an online transition after onlineTransition"})
+	}
+	// every other caller of onlineTransition (DHCPv4Update) runs it exactly when the host is not online
+	for _, fn := range c.P.LibFunctions() {
+		if fn == parse {
+			continue
+		}
+		for _, site := range callsIn(fn, nameIs("onlineTransition")) {
+			if len(site.Common().Args) != 2 {
+				continue
+			}
+			ins := site.(ssa.Instruction)
+			host := norm(site.Common().Args[1])
+			st := core.Proved
+			if !hasGuard(guardsOf(ins), `^!`+regexpQuote(host)+`\.Online$`) {
+				st = core.Violated
+			}
+			r.Add(core.Obligation{Rule: "online", Key: "online " + core.FuncName(fn) + " transition under !host.Online", Func: core.FuncName(fn), Pos: c.P.Pos(core.PosOf(ins)), Status: st,
+				Basis: "onlineTransition(host) called under !host.Online", Detail: "onlineTransition is not called under !host.Online (a tracked host that is offline would stay offline, or an online one would be re-announced): " + guardTexts(guardsOf(ins))})
+		}
 	}
 	if ot := c.A.Method("", "Session", "onlineTransition"); ot != nil {
 		core.EachInstr(ot, func(i ssa.Instruction) {
@@ -669,6 +688,23 @@ func runC06(c *Ctx) {
 		}
 		r.Add(core.Obligation{Rule: "order", Key: "order notify offline before online", Func: core.FuncName(fn), Pos: c.P.Pos(fn.Pos()), Status: st,
 			Basis: "no path from the online sendNotification back to makeOffline", Detail: det})
+	}
+	// the frame of an online transition is marked as such (notify gathers the superseded addresses only for marked frames)
+	r.Rule("frame-marked", "every online transition in Parse marks its frame as an online transition", 3)
+	if parse := c.A.Method("", "Session", "Parse"); parse != nil {
+		for k, site := range callsIn(parse, nameIs("onlineTransition")) {
+			ins := site.(ssa.Instruction)
+			ok, _ := mustPass(ins, func(j ssa.Instruction) bool {
+				s, isS := j.(*ssa.Store)
+				return isS && strings.HasSuffix(norm(s.Addr), "local(frame).flags") && strings.Contains(norm(s.Val), "markOnlineTransition")
+			})
+			st := core.Proved
+			if !ok {
+				st = core.Violated
+			}
+			r.Add(core.Obligation{Rule: "frame-marked", Key: fmt.Sprintf("frame-marked Parse transition site %d", k+1), Func: core.FuncName(parse), Pos: c.P.Pos(core.PosOf(ins)), Status: st,
+				Basis: "frame.flags = markOnlineTransition() follows the transition on every path", Detail: "after onlineTransition the frame is not marked with markOnlineTransition(): notify will not emit the offline notifications of the superseded addresses before the online one"})
+		}
 	}
 	// every online transition is reported: once Host.Online is set, dirty is set on every path to the return
 	r.Rule("transition-dirty", "an online transition always marks the host for notification", 1)
